@@ -192,12 +192,15 @@ def _strat_jobs(tier, seed):
                     if K == 4 and e["d"] not in (6,):
                         continue
                     out.append(dict(what=what, kind=kind, K=K, _cost=6 ** K, **e))
+    if tier == "thorough":
+        for kind in (P1, P2):
+            out.append(dict(what="reach", kind=kind, K=5, d=6, _cost=6 ** 5, _timeout_s=3000))
     return out
 
 
 @harness("tad.strategies", props=["C04", "C05"], jobs=_strat_jobs,
          covers=["tie", "unique", "all_zero", "self_loop", "dup_target"],
-         bounds="K<=4 (quick 3) actions, successor values any reals (reach: [0,1]; rewards: >=0), rounding digits "
+         bounds="K<=4 (quick 3; thorough also K=5 for the reachability extractors) actions, successor values any reals (reach: [0,1]; rewards: >=0), rounding digits "
                 "d in {1,2,3,6,9} (quick {1,6})",
          assumes=["round(x, d) modelled as a monotone function within half a unit of the d-th decimal of x"],
          desc="real get_best/worst_strategies_reachability/_total_rewards: in transition order, exactly the actions whose "
